@@ -1,7 +1,7 @@
 #!/usr/bin/env python
 """C18, finding F69 (formtran-se0-pha-extra-point-rows): tie of the CANDIDATE FIX (corpus/c18_f69_candidate_fix.diff) to
-its Lean model `Uset.formtranFixed` (Model/UsetTranFixed.lean; theorems in Props/C18Tran0Fixed.lean,
-Props/C18Tran0FixedUp.lean).
+its Lean model `Uset.formtran` (Model/UsetTran.lean; theorems in Props/C18Tran0.lean,
+Props/C18Tran.lean, C18TranM.lean).
 
     /venv/bin/python corpus/c18_f69_candidate_check.py [--tree /tmp/wt_fix_c18] [--n 700] [--seed 0]
 
@@ -11,7 +11,7 @@ c18_tran.py (small integer got / goq / gm / pha / phg: every product exact), wit
 the p-set but not in the g-set) inserted into about two thirds of the tables - in front of, between and behind the g-set
 DOF; requests from c18_tran.gen_request; plus the finding's own input.  Checks per (dictionary, se, request, gset):
 
-  exact        patched `n2p.formtran` == driver `ftranfx` (the Lean model `formtranFixed`): matrix, output DOF, exception kind
+  exact        patched `n2p.formtran` == driver `ftran` (the Lean model `formtran`): matrix, output DOF, exception kind
   reference    a successful patched call agrees with the defining relations of the stored matrices (model-free):
                tran @ x_a = the displacement of each requested DOF from u_t, u_q = x_a, u_o = GOT u_t + GOQ u_q, u_s = 0,
                u_m = GM u_n (residual: u_g = PHG x, or u_a = PHA x and the relations)
@@ -107,7 +107,7 @@ def run(a):
             warnings.simplefilter("ignore")
             rp = call(pn.formtran, nas, se, py, gset)
             ru = call(un.formtran, nas, se, py, gset)
-        reqs.append("ftranfx %d %d %s | %s | %s" % (se, gset, kind_, secs, sec))
+        reqs.append("ftran %d %d %s | %s | %s" % (se, gset, kind_, secs, sec))
         impls.append(reply(rp))
         metas.append({"se": se, "dof": py, "gset": gset, "tag": tag})
         br = ("formtran0:" if se == 0 else "formtran:") + (rp[0] if rp[0] != "ok" else
@@ -215,7 +215,7 @@ def run(a):
         "finding": "F69 formtran-se0-pha-extra-point-rows",
         "candidate": "corpus/c18_f69_candidate_fix.diff",
         "repo_head": head,
-        "model": "PyYetiVerif.Uset.formtranFixed (driver command ftranfx)",
+        "model": "PyYetiVerif.Uset.formtran (driver command ftran)",
         "seed": a.seed,
         "cases": len(reqs),
         "histogram": dict(sorted(hist.items())),
